@@ -20,14 +20,16 @@ PROP = dict(
         "nested to depth 3-4; functions/closures excluded",
         "sets whose members superimpose two sugar tuples at one index are excluded (KF-superimposed)",
         "`-x` on char/byte tuples is not generated (negated chars are hole markers: C05/C01)"],
-    level_text="Proof: 39 Lean theorems about the transliteration of all 15 Less methods (as repaired), Kind(), compareOps, OrderBy, "
+    level_text="Proof: 40 Lean theorems about the transliteration of all 15 Less methods (as repaired), Kind(), compareOps, OrderBy, "
                "OrderedValues, Rank, max/min: an order embedding less a b <-> key a < key b into a proved linear order gives "
                "irreflexivity, transitivity, trichotomy (exactly one of a<b, a=b, b<a), <= > >= as derived relations, "
                "representation independence, uniqueness of the sorted arrangement, orderby sorted/unique/enumeration-independent, "
-               "rank = number of strictly smaller keys, max/min extremal; witnesses that the unrepaired rules violated trichotomy "
-               "or panicked. Holds for every representation, no well-formedness hypothesis. The model is tied to /repo by "
-               "regenerated facts (kind numbers, operator table) and by running both on generated pairs/triples of values of all "
-               "kinds on every run. Equality is canonical-form equality; its link to the denotation (den) is C02's theorem.",
+               "rank = number of strictly smaller keys, max/min extremal - for every representation, no well-formedness hypothesis; "
+               "witnesses that the unrepaired rules violated trichotomy or panicked. `=` is canonical-form equality; it is proved "
+               "sound for the meaning (a = b implies den a = den b, so incomparable values mean the same). Partial: the converse "
+               "(a < b implies different meanings) is the uniqueness of canonical representations (C02) and is not proved here. "
+               "The model is tied to /repo by regenerated facts (kind numbers, operator table) and by running both on generated "
+               "pairs/triples/pools of values of all kinds on every run.",
     design_ref="DESIGN.md section 6, C06",
     watch=["rel.Number.Less", "rel.GenericTuple.Less", "rel.GenericTuple.Kind", "rel.StringCharTuple.Less", "rel.BytesByteTuple.Less",
            "rel.ArrayItemTuple.Less", "rel.DictEntryTuple.Less", "rel.EmptySet.Less", "rel.TrueSet.Less", "rel.GenericSet.Less",
